@@ -267,7 +267,7 @@ def main():
         checker_cmd=f'cd lean && lake build Properties.{prop} && lake env lean .audit/Audit_{prop}.lean  (#print axioms of every theorem in Properties/{prop}.lean)',
         trusted_base=['Lean 4.33 kernel', 'axioms: propext, Classical.choice, Quot.sound (audited this run)',
                       'hand-written executable model tied to /repo by the correspondence run below',
-                      'harness/translate.py for Generated/*.lean'],
+                      'harness/translators/*.py regenerating lean/Generated/*.lean from the source on every run'],
         theorems=lean['axioms'], broken=lean['broken'], leanchecker=lean.get('leanchecker', 'not run (thorough tier only)'), lean_modules=lean['sources'],
         evaluations=res['evaluations'] if res else 0,
         distinct_nontrivial=res['distinct_nontrivial'] if res else 0,
